@@ -10,6 +10,8 @@
 import Aegean.Model.C10
 import Aegean.Spec.C10
 import Aegean.Proofs.C10
+import Aegean.Proofs.C10Gen
+import Aegean.Model.C10Gen
 
 namespace Aegean.Properties.C10
 open Aegean.Model.C10 Aegean.Spec.C10 Aegean.Proofs.C10
@@ -364,6 +366,119 @@ theorem nan_pixel_blanked_iff {S : Type} (finite member : S → Bool) (zero : S)
     (negate : Bool) (i j : Nat) (h : finite (sky (fitsCoord i j)) = false) :
     mustBlank sky (skyWithin finite member zero) negate i j = !negate := by
   simp [mustBlank, nan_never_inside finite member zero _ h]
+
+/-! ### The regenerated pieces (translator/targets/C10.py) and the model assembled from them
+
+`Gen.C10.*` are re-translated from `MIMAS.mask_plane / mask_file / mask_table / mask_catalog` on every
+run.  `gen_pieces_ok` is the proof obligation about them: it breaks when the source changes meaning
+(origin argument, a shifted or swapped index, the negate test, the blank value, the plane loop, the row
+filter, the arguments handed on by mask_catalog).  Under it the assembled functions are the hand model
+(`Proofs.C10.maskFileP_eq`, `maskTableP_eq`), so the property theorems hold of the regenerated model. -/
+
+section GenObligations
+set_option linter.unusedSimpArgs false
+
+/-- unfold the regenerated definitions (or their hand fallbacks) and finish with arithmetic -/
+local macro "gen_arith" : tactic => `(tactic| (
+  simp only [genPieces, Gen.C10.idxE0, Gen.C10.idxE1, Gen.C10.idxSetCol, Gen.C10.idxSetVal, Gen.C10.idxLo, Gen.C10.idxHi,
+    Gen.C10.idxTotal, Gen.C10.idxOuter, Gen.C10.idxInner, Gen.C10.wcsOrigin, Gen.C10.wcsShift, Gen.C10.skyOrder,
+    Gen.C10.skyDegin, Gen.C10.applyReshape, Gen.C10.applyBlank, Gen.C10.planeCut, Gen.C10.planeSame,
+    Gen.C10.tableArgs, Gen.C10.catalogArgs,
+    idxE0Hand, idxE1Hand, idxSetColHand, idxSetValHand, idxLoHand, idxHiHand, idxTotalHand, idxOuterHand, idxInnerHand,
+    wcsOriginHand, wcsShiftHand, skyOrderHand, skyDeginHand, applyReshapeHand, applyBlankHand, planeCutHand,
+    planeSameHand, tableArgsHand, catalogArgsHand] <;>
+  first
+    | rfl
+    | omega
+    | (simp [Nat.mul_comm, Nat.add_mul, Nat.mul_add, Nat.succ_mul, Nat.add_comm]; done)
+    | grind))
+
+/-- the index list: the row loop leaves `(j, i)` in `idx`, slices `[i·W, (i+1)·W)` of an `H·W`-row array
+    are written for `i < H`, rows hold `W` tuples -/
+theorem gen_index_pieces :
+    (∀ i j : Nat,
+      (if genPieces.setCol i = 0 then (((genPieces.setVal i : Nat) : Int), ((genPieces.e1 j : Nat) : Int))
+        else (((genPieces.e0 j : Nat) : Int), ((genPieces.setVal i : Nat) : Int))) = (((j : Nat) : Int), ((i : Nat) : Int))) ∧
+    (∀ H W, genPieces.inner H W = W) ∧ (∀ H W, genPieces.outer H W = H) ∧ (∀ H W, genPieces.total H W = H * W) ∧
+    (∀ i H W, genPieces.lo i H W = i * W) ∧ (∀ i H W, genPieces.hi i H W = (i + 1) * W) := by
+  refine ⟨?_, ?_, ?_, ?_, ?_, ?_⟩ <;> intros <;> gen_arith
+
+/-- the WCS call: index + shift with the origin argument is the FITS coordinate index + 1; the two world
+    columns go to `sky_within` in order, as degrees -/
+theorem gen_wcs_pieces :
+    genPieces.shift + (1 - genPieces.origin) = 1 ∧ genPieces.skyOrder = 1 ∧ genPieces.skyDegin = 1 := by
+  refine ⟨?_, ?_, ?_⟩ <;> gen_arith
+
+/-- the negate logic of `mask_plane` over 0/1: the mask bit is set iff membership equals `negate` -/
+theorem gen_maskBit (n b : Bool) : (genPieces.maskBit (bit n) (bit b) == 1) = (b == n) := by
+  cases n <;> cases b <;>
+    first
+      | decide
+      | (simp [genPieces, Gen.C10.maskBit, maskBitHand, bit]; done)
+
+/-- the row filter of `mask_table` over 0/1: a row is kept iff membership equals `negate` -/
+theorem gen_rowKeep (n b : Bool) : (genPieces.rowKeep (bit n) (bit b) == 1) = (b == n) := by
+  cases n <;> cases b <;>
+    first
+      | decide
+      | (simp [genPieces, Gen.C10.rowKeep, rowKeepHand, bit]; done)
+
+/-- reshape to `data.shape`, blank with NaN, loop over all leading axes with the same arguments,
+    `mask_table` reads (racol, deccol) as degrees and returns `table[mask]`, `mask_catalog` hands
+    negate / racol / deccol on and writes what `mask_table` returned -/
+theorem gen_plumbing_pieces :
+    genPieces.reshape = 1 ∧ genPieces.blank = 1 ∧ genPieces.planeCut = -2 ∧ genPieces.planeSame = 1 ∧
+    genPieces.tableArgs = 1 ∧ genPieces.catalogArgs = 1 := by
+  refine ⟨?_, ?_, ?_, ?_, ?_, ?_⟩ <;> gen_arith
+
+end GenObligations
+
+/-- **gen_pieces_ok**: the regenerated pieces satisfy everything the property needs of them -/
+theorem gen_pieces_ok : PiecesOK genPieces where
+  rowElt := gen_index_pieces.1
+  inner := gen_index_pieces.2.1
+  outer := gen_index_pieces.2.2.1
+  total := gen_index_pieces.2.2.2.1
+  lo := gen_index_pieces.2.2.2.2.1
+  hi := gen_index_pieces.2.2.2.2.2
+  wcs := gen_wcs_pieces.1
+  skyOrder := gen_wcs_pieces.2.1
+  skyDegin := gen_wcs_pieces.2.2
+  maskBit := gen_maskBit
+  reshape := gen_plumbing_pieces.1
+  blank := gen_plumbing_pieces.2.1
+  planeCut := gen_plumbing_pieces.2.2.1
+  planeSame := gen_plumbing_pieces.2.2.2.1
+  rowKeep := gen_rowKeep
+  tableArgs := gen_plumbing_pieces.2.2.2.2.1
+  catalogArgs := gen_plumbing_pieces.2.2.2.2.2
+
+/-- **gen_refines_model**: the model assembled from the regenerated pieces is the hand model, for every
+    image, cube and table (whatever `swap` and `other` stand for: they are only reachable when an
+    obligation fails) -/
+theorem gen_refines_model {α S Row C : Type} (swap : S → S) (nan other : α) (sky : Pix → S)
+    (inside : S → Bool) (negate : Bool) (P H W : Nat) (data : List α)
+    (insideC : C → Bool) (coord : Row → C) (rows : List Row) :
+    maskFileP genPieces swap nan other sky inside negate P H W data = maskFile nan sky inside negate P H W data ∧
+    maskTableP genPieces insideC coord negate rows = maskTable insideC coord negate rows :=
+  ⟨maskFileP_eq genPieces gen_pieces_ok swap nan other sky inside negate P H W data,
+   maskTableP_eq genPieces gen_pieces_ok insideC coord negate rows⟩
+
+/-- **gen_model_meets_spec**: hence the regenerated model meets the Spec — every pixel of every plane
+    is blanked iff its own centre is outside (inside with negate), all others unchanged; the table is
+    the stable filter -/
+theorem gen_model_meets_spec {α S Row C : Type} (swap : S → S) (nan other : α) (sky : Pix → S)
+    (inside : S → Bool) (negate : Bool) (P H W : Nat) (data : List α) (hd : data.length = P * (H * W))
+    (insideC : C → Bool) (coord : Row → C) (rows : List Row) :
+    FileOK nan sky inside negate P H W data (maskFileP genPieces swap nan other sky inside negate P H W data) ∧
+    TableOK insideC coord negate rows (maskTableP genPieces insideC coord negate rows) := by
+  rw [(gen_refines_model swap nan other sky inside negate P H W data insideC coord rows).1,
+    (gen_refines_model swap nan other sky inside negate P H W data insideC coord rows).2]
+  exact ⟨model_meets_spec_file nan sky inside negate P H W data hd,
+    (table_filter_stable insideC coord negate rows).1⟩
+
+example : maskFileP genPieces (fun p : Pix => p) (99 : Nat) 0 (fun p => p) (fun p : Pix => p == (2, 1)) false 1 2 3
+    [10, 11, 12, 13, 14, 15] = [99, 11, 99, 99, 99, 99] := by decide
 
 /-! ### Non-vacuity, and the negation witness for the pinned origin argument -/
 
